@@ -106,7 +106,11 @@ class ASPTemporalOperation(ASPOperation):
         clean_operands = []
         for operand in operands:
             if isinstance(operand, ASPTemporalFormula):
-                clean_operands.append(operand.operations[0])
+                if operand.negated:
+                    # keep the negation of a nested 'there is not ...' condition
+                    clean_operands.append(ASPTemporalOperation(Operators.NEGATION, operand.operations[0]))
+                else:
+                    clean_operands.append(operand.operations[0])
             else:
                 clean_operands.append(operand)
 
